@@ -62,3 +62,35 @@ Definition w_filters (v : val) : val :=
       end
   | _ => bad
   end.
+
+(* ReferenceSearchingAccessor.__get__ as its loop is written: for each candidate the attribute paths in order; a path
+   that cannot be followed (AttributeError: "source.owner" when source is empty) is skipped and the NEXT path is tried;
+   the first path whose value contains y reports the candidate, once *)
+Fixpoint paths_hit (y : Z) (ps : list (option (list Z))) : bool :=
+  match ps with
+  | [] => false
+  | None :: r => paths_hit y r
+  | Some vs :: r => memq y vs || paths_hit y r
+  end.
+(* ... and with `break` in place of `continue` on a path that cannot be followed *)
+Fixpoint paths_hit_break (y : Z) (ps : list (option (list Z))) : bool :=
+  match ps with
+  | [] => false
+  | None :: _ => false
+  | Some vs :: r => memq y vs || paths_hit_break y r
+  end.
+Definition backrefs_loop (cs : list (Z * list (option (list Z)))) (y : Z) : list Z :=
+  map fst (filter (fun c => paths_hit y (snd c)) cs).
+Definition backrefs_loop_break (cs : list (Z * list (option (list Z)))) (y : Z) : list Z :=
+  map fst (filter (fun c => paths_hit_break y (snd c)) cs).
+
+Definition dec_path (v : val) : option (option (list Z)) :=
+  match v with VNone => Some None | VL l => option_map Some (all_some (map as_Z l)) | _ => None end.
+Definition dec_cand (v : val) : option (Z * list (option (list Z))) :=
+  match v with VL [VZ h; VL ps] => option_map (pair h) (all_some (map dec_path ps)) | _ => None end.
+(* [candidates; y] -> handles of the reported candidates, in candidate order *)
+Definition w_backrefs_loop (v : val) : val :=
+  match v with
+  | VL [VL cs; VZ y] => match all_some (map dec_cand cs) with Some cs => VL (map VZ (backrefs_loop cs y)) | None => bad end
+  | _ => bad
+  end.
